@@ -6,7 +6,8 @@ ID = 'C09'
 LEAN_MODULES = ['HidVerif.Props.C09']
 THEOREMS = ['HidVerif.Props.C09.' + n for n in ('arith_map_correct', 'compare_map_correct', 'halt_inversion_correct', 'branch_lowering',
                                                  'int_to_bool_norm', 'neg_lowering', 'not_lowering', 'int_to_byte_is_truncation',
-                                                 'word_store_then_byte_read', 'byte_survives_word_roundtrip')]
+                                                 'word_store_then_byte_read', 'byte_survives_word_roundtrip',
+                                                 'neg_boundary', 'neg_neg_word', 'neg_lowering_is_negW')]
 TRUSTED = TRUSTED_BASE + ['Compiler/Templates.lean branch / normalisation templates, tied to the generator by the conformance check']
 ASSUMPTIONS = _A + ['A4 (floor division/modulus on negative operands) is not pinned by any recorded upstream output']
 RULE = ('theorems over the whole value space; searcher: every operator and cast in value, branch (if/while/not) and defeat position with '
